@@ -24,6 +24,7 @@ inductive Op where
   | setDisc (d : Nat)
   | clear
   | giveBack (r : Res) (d : Nat) -- `give_back_resource` (refill)
+  | newGen                       -- `start_new_generation` (after the `fix:` commit): bump + clear in one step
 
 def giveBackRes (s : St) (r : Res) (d : Nat) : St :=
   if s.size ≤ s.queue.length then s
@@ -55,6 +56,7 @@ def stepOld (s : St) : Op → St
   | .setDisc d => { s with disc := d }
   | .clear => { s with queue := [] }
   | .giveBack r d => giveBackRes s r d
+  | .newGen => { s with disc := s.disc + 1, queue := [] }
 
 /-- the code as it is (API-atomic granularity; after the fix the bound test and the push are
 one critical section, so every API call is one atomic step — see DESIGN C18) -/
@@ -71,6 +73,7 @@ def step (s : St) : Op → St
   | .setDisc d => { s with disc := d }
   | .clear => { s with queue := [] }
   | .giveBack r d => giveBackRes s r d
+  | .newGen => { s with disc := s.disc + 1, queue := [] }
 
 def Fresh (s : St) : Prop := ∀ r ∈ s.queue, r.trueGen = s.disc
 
@@ -153,6 +156,7 @@ theorem step_bounded (s : St) (op : Op) (h : Bounded s) : Bounded (step s op) :=
   | setDisc d => exact h
   | clear => unfold Bounded; simp [step]
   | giveBack r d => exact giveBackRes_bounded h
+  | newGen => unfold Bounded; simp [step]
 
 theorem run_bounded (s : St) (h : Bounded s) (ops : List Op) : Bounded (ops.foldl step s) := by
   induction ops generalizing s with
@@ -163,7 +167,7 @@ theorem run_bounded (s : St) (h : Bounded s) (ops : List Op) : Bounded (ops.fold
 a resource handed to `give_back_resource` together with discriminant `d` was built for `d` -/
 def OpOk : Op → Prop
   | .giveBack r d => r.trueGen = d
-  | .setDisc _ => False          -- generation changes only through `Reach.refresh`
+  | .setDisc _ => False          -- generation changes only through `newGen` (or `Reach.refresh`)
   | _ => True
 
 theorem step_inv (s : St) (op : Op) (hok : OpOk op) (h : Inv s) : Inv (step s op) := by
@@ -201,6 +205,13 @@ theorem step_inv (s : St) (op : Op) (hok : OpOk op) (h : Inv s) : Inv (step s op
     · intro x hx; simp [step] at hx
     · simp [step]
   | giveBack r d => exact giveBackRes_inv ⟨h1, h2, h3⟩ hok
+  | newGen =>
+    refine ⟨?_, ?_, ?_⟩
+    · intro x hx; simp [step] at hx
+    · simp [step]
+    · intro x hx
+      obtain ⟨a, b⟩ := h3 x (by simpa [step] using hx)
+      exact ⟨a, by simp [step]; omega⟩
 
 /-- a refresh whose `set_discriminant` and `clear` are not separated by another call -/
 theorem refresh_inv (s : St) (d : Nat) (hd : s.disc ≤ d) (h : Inv s) :
@@ -237,5 +248,16 @@ theorem acquire_fresh (s0 s : St) (h0 : Inv s0) (hr : Reach s0 s) (tid : Nat) (i
     simp [step, hq, lookupHeld] at h
     subst h
     exact hi.1 r (by simp [hq])
+
+/-- **every interleaving of the calls the provers make** (acquire, explicit give-back, drop, refill with
+resources built for the discriminant they are handed in with, clear, reset, `start_new_generation`), by any
+number of users, in any order: no side condition on where the generation changes fall -/
+theorem run_inv (s : St) (h : Inv s) : ∀ ops : List Op, (∀ op ∈ ops, OpOk op) → Inv (ops.foldl step s) := by
+  intro ops
+  induction ops generalizing s with
+  | nil => intro _; exact h
+  | cons op r ih =>
+    intro hok
+    exact ih (step s op) (step_inv s op (hok op (by simp)) h) (fun o ho => hok o (by simp [ho]))
 
 end Pool
